@@ -436,6 +436,13 @@ func makePool(t *core.Tape, n int, rich bool) []poolItem {
 						if t.Bool(1, 2) {
 							l = append(l, &ap.Object{Type: ap.NoteType, Content: ap.DefaultNaturalLanguageValue("value")})
 						}
+						if t.Bool(1, 2) {
+							// a mention and a hashtag as every Mastodon note carries them: links, without an id
+							l = append(l, &ap.Link{Type: ap.MentionType, Href: ap.IRI(fmt.Sprintf("https://social.example.org/users/%d", 40+i)), Name: ap.DefaultNaturalLanguageValue("@someone")})
+							if t.Bool(1, 2) {
+								l = append(l, ap.Link{Type: ap.LinkType, Href: "https://social.example.org/tags/go", Name: ap.DefaultNaturalLanguageValue("#go")})
+							}
+						}
 						f.Set(reflect.ValueOf(l))
 						shape += "+idless-members"
 						break
